@@ -1,120 +1,26 @@
-// probe: first look at how the limits behave (development aid, not part of the check)
+// probe: development aid, not part of the check
 package main
 
 import (
-	"bytes"
-	"errors"
 	"fmt"
-	"os"
-	"runtime"
 
-	"github.com/pdfcpu/pdfcpu/pkg/api"
-	"github.com/pdfcpu/pdfcpu/pkg/filter"
-	"github.com/pdfcpu/pdfcpu/pkg/pdfcpu"
-	"github.com/pdfcpu/pdfcpu/pkg/pdfcpu/model"
 	"github.com/pdfcpu/pdfcpu/pkg/pdfcpu/types"
-
 	"verif/harness/internal/pdfgen"
 )
 
-func doc(content *pdfgen.Stream, extra func(d *pdfgen.Doc, page *pdfgen.Dict)) *pdfgen.Doc {
-	d := pdfgen.NewDoc()
-	pages := d.Alloc()
-	c := d.Add(content)
-	pg := pdfgen.D("Type", pdfgen.Name("Page"), "Parent", pages, "MediaBox", pdfgen.Rect(0, 0, 200, 200), "Contents", c,
-		"Resources", pdfgen.D())
-	if extra != nil {
-		extra(d, &pg)
-	}
-	page := d.Add(pg)
-	d.Put(pages, pdfgen.D("Type", pdfgen.Name("Pages"), "Kids", pdfgen.Array{page}, "Count", 1))
-	d.SetRoot(d.Add(pdfgen.D("Type", pdfgen.Name("Catalog"), "Pages", pages)))
-	return d
-}
-
-func walk(ctx *model.Context, L, S int64) {
-	for nr, e := range ctx.XRefTable.Table {
-		if e == nil || e.Object == nil {
-			continue
-		}
-		var sd *types.StreamDict
-		switch o := e.Object.(type) {
-		case types.StreamDict:
-			sd = &o
-		case types.ObjectStreamDict:
-			sd = &o.StreamDict
-		case types.XRefStreamDict:
-			sd = &o.StreamDict
-		}
-		if sd != nil {
-			fmt.Printf("   obj %d (%T): raw=%d content=%d %s\n", nr, e.Object, len(sd.Raw), len(sd.Content), map[bool]string{true: "EXCEEDS"}[int64(len(sd.Content)) > L || int64(len(sd.Raw)) > S])
-		}
-	}
-}
-
-func run(name string, b []byte, L, S int64, all bool, mode int) {
-	fmt.Printf("== %s (%d bytes) L=%d S=%d decodeAll=%v mode=%d\n", name, len(b), L, S, all, mode)
-	conf := model.NewDefaultConfiguration()
-	conf.Offline = true
-	conf.ValidationMode = mode
-	conf.Limits.MaxDecodeBytes = L
-	conf.Limits.MaxStreamBytes = S
-	conf.DecodeAllStreams = all
-	conf.Cmd = model.EXTRACTIMAGES
-	defer func() {
-		if r := recover(); r != nil {
-			fmt.Println("   PANIC", r)
-		}
-	}()
-	ctx, err := api.ReadContext(bytes.NewReader(b), conf)
-	fmt.Printf("   read: %v limit=%v\n", err, errors.Is(err, filter.ErrDecodeLimitExceeded))
-	if err != nil {
-		return
-	}
-	walk(ctx, L, S)
-	err = api.ValidateContext(ctx)
-	fmt.Printf("   validate: %v limit=%v\n", err, errors.Is(err, filter.ErrDecodeLimitExceeded))
-	if err != nil {
-		return
-	}
-	walk(ctx, L, S)
-	err = api.OptimizeContext(ctx)
-	fmt.Printf("   optimize: %v limit=%v\n", err, errors.Is(err, filter.ErrDecodeLimitExceeded))
-	if err != nil {
-		return
-	}
-	walk(ctx, L, S)
-	mm, err := pdfcpu.ExtractPageImages(ctx, 1, false)
-	fmt.Printf("   images: %d %v limit=%v\n", len(mm), err, errors.Is(err, filter.ErrDecodeLimitExceeded))
-	walk(ctx, L, S)
-	r, err := pdfcpu.ExtractPageContent(ctx, 1)
-	fmt.Printf("   content: %v %v limit=%v\n", r != nil, err, errors.Is(err, filter.ErrDecodeLimitExceeded))
-	walk(ctx, L, S)
-	var ms runtime.MemStats
-	runtime.ReadMemStats(&ms)
-	fmt.Printf("   heapSys=%d MiB totalAlloc=%d MiB\n", ms.HeapSys>>20, ms.TotalAlloc>>20)
-}
-
 func main() {
-	api.DisableConfigDir()
-	L := int64(4096)
-	for _, opt := range []pdfgen.Options{{}, {XRef: pdfgen.XRefStream, ObjStm: true, XRefStreamFlate: true}} {
-		for _, all := range []bool{false, true} {
-			d := doc(pdfgen.Bomb(pdfgen.BombFlate, 100000), nil)
-			out := pdfgen.MustWrite(d, opt)
-			run("content flate bomb 100000", out.Bytes, L, L, all, model.ValidationRelaxed)
-		}
+	payload := append([]byte("BT ET\n"), make([]byte, 100)...)
+	for i := 6; i < len(payload); i++ {
+		payload[i] = '\n'
 	}
-	// image
-	d := doc(&pdfgen.Stream{Data: []byte("q Q\n")}, func(d *pdfgen.Doc, pg *pdfgen.Dict) {
-		img := pdfgen.Bomb(pdfgen.BombFlate, 100*100*3)
-		img.Dict = pdfgen.D("Type", pdfgen.Name("XObject"), "Subtype", pdfgen.Name("Image"), "Width", 100, "Height", 100, "BitsPerComponent", 8, "ColorSpace", pdfgen.Name("DeviceRGB"))
-		r := d.Add(img)
-		pg.Set("Resources", pdfgen.D("XObject", pdfgen.D("Im0", r)))
-	})
-	out := pdfgen.MustWrite(d, pdfgen.Options{})
-	run("image 30000", out.Bytes, L, L, false, model.ValidationRelaxed)
-	if len(os.Args) > 1 {
-		os.WriteFile(os.Args[1], out.Bytes, 0o644)
-	}
+	fs := []pdfgen.FilterSpec{{Kind: pdfgen.Flate}, {Kind: pdfgen.ASCIIHex}}
+	enc, _ := pdfgen.Encode(payload, fs)
+	hexd, _ := pdfgen.EncodeStage(payload, fs[1])
+	fmt.Printf("hex stage: %q\n", hexd[:40])
+	sd := types.StreamDict{Dict: types.NewDict(), Raw: enc, FilterPipeline: []types.PDFFilter{{Name: "FlateDecode"}, {Name: "ASCIIHexDecode"}}}
+	err := sd.DecodeWithLimit(4096)
+	fmt.Println(err, len(sd.Content))
+	sd = types.StreamDict{Dict: types.NewDict(), Raw: hexd, FilterPipeline: []types.PDFFilter{{Name: "ASCIIHexDecode"}}}
+	err = sd.DecodeWithLimit(4096)
+	fmt.Println(err, len(sd.Content))
 }
